@@ -247,8 +247,20 @@ fn snippet(field: &FormatField) -> CResult<Option<String>> {
 
 impl TargetScheme for Vec<FormatElement> {
     fn compile(&self, buffer: &mut String, ctx: &mut dyn SchemeManager) -> CResult {
-        let template = self
-            .iter()
+        // Refuse unsupported fields wherever they are in the format
+        for el in self.iter() {
+            if let FormatElement::Field(f) = el {
+                placeholder(f)?;
+            }
+        }
+
+        // `\c` stops printing from this format: nothing after it is emitted
+        let printed = || {
+            self.iter()
+                .take_while(|el| !matches!(el, FormatElement::Special(FormatSpecial::Clear)))
+        };
+
+        let template = printed()
             .map(|el| match el {
                 FormatElement::Literal(s) => Ok(verbatim(s)),
                 FormatElement::Field(f) => placeholder(f).map(|s| s.to_string()),
@@ -257,8 +269,7 @@ impl TargetScheme for Vec<FormatElement> {
             .collect::<CResult<Vec<String>>>()?
             .join("");
 
-        let items = self
-            .iter()
+        let items = printed()
             .filter_map(|el| match el {
                 FormatElement::Literal(s) => None,
                 FormatElement::Field(f) => snippet(f).unwrap_or_else(|e| {
